@@ -384,4 +384,29 @@ def tempUnary (tab : TTable K) (op : UnOp) (u : TU K) : Except Err (UnitV K) :=
 
 end mulpow
 
+/-! ### the source text of the guards modelled above (`ast.unparse` layout)
+
+  The translator regenerates these texts from the current source; `TempCheck.codeConstantsMatch`
+  (kernel-decided in `UnytProofs/C08Tab.lean`) compares them with the texts below, each of which
+  is written next to the model function that implements it.  A guard that is inverted, widened or
+  narrowed in the source changes its text and breaks the obligation. -/
+
+/-- `Unit.__pow__`: the two refusals — `UnitV.pow` (logarithmic) and `unitPow` (`u.offset tab != 0 && p != 0 && p != 1`) -/
+def srcPowRaiseGuards : List String :=
+  ["self.dimensions is logarithmic and p != 1", "self.base_offset != 0.0 and p != 0 and (p != 1)"]
+
+/-- `diff_helper`: the temperature branch, its refusal (`hasOffset tab u`) and its label
+    (`if unitEq tab u (TU.bare .dC) then TU.bare .dC else u`) — `diffHelper` -/
+def srcDiffHelperOuter : List String := ["u.dimensions is temperature"]
+def srcDiffHelperRaiseGuards : List String := ["u.base_offset"]
+def srcDiffHelperLabel : List String := ["delta_degC if u == delta_degC else u"]
+
+/-- `__array_ufunc__`: the only assignment to `inp0` in the conversion block — `tempAdd`
+    (`!hasOffset tab u0 && hasOffset tab u1` under the `preserve` rule → `x0 * (u0.scale / u1.scale)`,
+    else the second operand times `conv`) -/
+def srcFirstOperandRescaling : List (String × String × List String) :=
+  [("unit_operator is _preserve_units and u0.dimensions is temperature and (u0.base_offset == 0.0) and (u1.base_offset != 0.0)",
+    "np.asarray(inp0) * (u0.base_value / u1.base_value)",
+    ["inp1 = np.asarray(inp1, dtype=new_dtype) * conv"])]
+
 end Unyt.Temp
